@@ -22,10 +22,10 @@ import (
 var probeSrc string
 
 type GenResult struct {
-	Exit   int
-	Stderr string
-	Files  []string // declaration files passed in this invocation
-	Dur    time.Duration
+	Exit     int
+	Stderr   string
+	Files    []string // declaration files passed in this invocation
+	Dur      time.Duration
 	TimedOut bool          // still running at CLITimeout (it was sent SIGQUIT: Stderr carries the goroutine stacks)
 	CPU      time.Duration // processor time it had consumed
 }
@@ -39,9 +39,9 @@ type Prog struct {
 	Spec     *spec.Spec
 	Dir      string
 	Gen      []GenResult
-	GenOK    bool   // every invocation exited 0
-	BuildErr string // compile errors of the package (with generated files)
-	PreErr   string // compile errors of the user package alone (harness bug)
+	GenOK    bool              // every invocation exited 0
+	BuildErr string            // compile errors of the package (with generated files)
+	PreErr   string            // compile errors of the user package alone (harness bug)
 	Band     map[string]string // generated file name -> content
 	Reg      string            // registration file, written after generation
 	Dropped  int               // injectors dropped because their generated function did not compile
